@@ -1483,9 +1483,42 @@ class GenericsSuite(Suite):
                'pub mod ty {\n    #![deny(warnings)]\n    #![allow(dead_code, unused_imports)]\n    use educe::Educe;\n%s\n}\npub use ty::T;\n'
                'pub fn run(out: &mut Out) { %s out.check(true, "%s", "compile", || String::new()); }\n' % (tid, t.raw_decl, ' '.join(uses), tid))
         return t, src, dict(values=1, traits=traits)
+    def make_const_only(self, r, tid):
+        # no type parameter: only a const parameter (and perhaps a lifetime) is named like the templates' own identifiers
+        cp = pick(r, ['__H', '__H', '__H_', 'H', 'N'])
+        lt = r.random() < 0.3
+        header = "<%sconst %s: usize>" % ("'a, " if lt else '', cp)
+        inst = "T<%s2>" % ("'static, " if lt else '')
+        traits = r.sample(['Debug', 'Clone', 'PartialEq', 'Hash', 'PartialOrd'], pick(r, [1, 2, 3]))
+        if 'PartialOrd' in traits and 'PartialEq' not in traits:
+            traits.append('PartialEq')
+        tattrs = list(traits); r.shuffle(tattrs)
+        fs = [('arr', '[u8; %s]' % cp), ('n', 'u8')] + ([('r', "&'a u8")] if lt else [])
+        r.shuffle(fs)
+        vals = {'[u8; %s]' % cp: '[1, 2]', 'u8': '5', "&'a u8": '&7'}
+        kind, shape = pick(r, ['struct', 'struct', 'enum']), pick(r, ['named', 'unnamed'])
+        decl = (' { ' + ', '.join('%s%s: %s' % ('pub ' if kind == 'struct' else '', n, t_) for n, t_ in fs) + ' }') if shape == 'named' else \
+               ('(' + ', '.join(('pub ' if kind == 'struct' else '') + t_ for n, t_ in fs) + ')')
+        args = ('{ ' + ', '.join('%s: %s' % (n, vals[t_]) for n, t_ in fs) + ' }') if shape == 'named' else ('(' + ', '.join(vals[t_] for n, t_ in fs) + ')')
+        if kind == 'struct':
+            body = 'pub struct T%s%s%s' % (header, decl, '' if shape == 'named' else ';')
+            mk = 'T' + (' ' if shape == 'named' else '') + args
+        else:
+            body = 'pub enum T%s { V%s, W }' % (header, decl)
+            mk = 'T::V' + (' ' if shape == 'named' else '') + args
+        uses = ['{ let x: %s = %s; %s }' % (inst, mk, GEN_TRAITS[tr][1].replace('INST', inst)) for tr in traits]
+        t = Ty(tid, kind, [])
+        t.raw_decl = '#[derive(Educe)]\n' + '\n'.join('#[educe(%s)]' % a for a in tattrs) + '\n' + body
+        src = ('// %s\n#![allow(dead_code, unused_variables, unused_mut, unused_imports)]\nuse crate::support::*;\n'
+               'pub mod ty {\n    #![deny(warnings)]\n    #![allow(dead_code, unused_imports)]\n    use educe::Educe;\n%s\n}\npub use ty::T;\n'
+               'pub fn run(out: &mut Out) { %s out.check(true, "%s", "compile", || String::new()); }\n' % (tid, t.raw_decl, ' '.join(uses), tid))
+        return t, src, dict(values=1, traits=traits)
     def make(self, r, tid):
-        if r.random() < 0.2:
+        c0 = r.random()
+        if c0 < 0.2:
             return self.make_union(r, tid)
+        if c0 < 0.32:
+            return self.make_const_only(r, tid)
         kind = pick(r, ['struct', 'enum'])
         traits = r.sample(['Debug', 'Clone', 'PartialEq', 'Hash', 'PartialOrd'], pick(r, [1, 2, 3]))
         extra = pick(r, [None, None, 'Into', 'Deref', 'Default'])
